@@ -123,6 +123,56 @@ func loadContracts(path string) (*ContractFile, error) {
 		lines = append(lines, body)
 		lnos = append(lnos, ln)
 	}
+	// textual templates: "template NAME(P1, P2)" ... "end"; "instantiate NAME(a1, a2)"
+	{
+		type tmpl struct {
+			params []string
+			body   []string
+			lnos   []int
+		}
+		tmpls := map[string]*tmpl{}
+		var outL []string
+		var outN []int
+		var curT *tmpl
+		reT := regexp.MustCompile(`^(template|instantiate)\s+([A-Za-z0-9_-]+)\((.*)\)$`)
+		for i, l := range lines {
+			if l == "end" && curT != nil {
+				curT = nil
+				continue
+			}
+			if m := reT.FindStringSubmatch(l); m != nil {
+				var args []string
+				for _, a := range strings.Split(m[3], ",") {
+					args = append(args, strings.TrimSpace(a))
+				}
+				if m[1] == "template" {
+					curT = &tmpl{params: args}
+					tmpls[m[2]] = curT
+					continue
+				}
+				t := tmpls[m[2]]
+				if t == nil || len(t.params) != len(args) {
+					return nil, fmt.Errorf("contracts:%d: bad instantiate %s", lnos[i], m[2])
+				}
+				for k, b := range t.body {
+					for j, prm := range t.params {
+						b = strings.ReplaceAll(b, prm, args[j])
+					}
+					outL = append(outL, b)
+					outN = append(outN, t.lnos[k])
+				}
+				continue
+			}
+			if curT != nil {
+				curT.body = append(curT.body, l)
+				curT.lnos = append(curT.lnos, lnos[i])
+				continue
+			}
+			outL = append(outL, l)
+			outN = append(outN, lnos[i])
+		}
+		lines, lnos = outL, outN
+	}
 	var cur *Contract
 	var curLoop *LoopSpec
 	auto := 0
@@ -227,12 +277,14 @@ func loadContracts(path string) (*ContractFile, error) {
 				cur.Lets = append(cur.Lets, lt)
 			}
 		case "loop":
-			n, err := strconv.Atoi(rest)
-			if err != nil {
-				return nil, fmt.Errorf("contracts:%d: bad loop ordinal", ln)
-			}
 			curLoop = &LoopSpec{}
-			cur.Loops[n] = curLoop
+			for _, f := range strings.Split(rest, ",") {
+				n, err := strconv.Atoi(strings.TrimSpace(f))
+				if err != nil {
+					return nil, fmt.Errorf("contracts:%d: bad loop ordinal", ln)
+				}
+				cur.Loops[n] = curLoop
+			}
 		case "ghost":
 			for _, g := range strings.Split(rest, ",") {
 				fs := strings.Fields(g)
